@@ -1,9 +1,20 @@
 import JominiModel.Driver.Util
+import JominiModel.Model.Encoding
 namespace Jomini.Driver.C12
-open Jomini Jomini.Driver
+open Jomini Jomini.Driver Jomini.Encoding
 
-/-- ops of property C12 (none yet). -/
+def showCow : Res Cow → String
+  | .panic => "panic"
+  | .ok (.borrowed b) => "B:" ++ toHex b
+  | .ok (.owned b) => "O:" ++ toHex b
+
+/-- ops of property C12. -/
 def handle : Handler
+  | ["w1252", h] => (parseHex h).map fun d => showCow (decodeWindows1252 d)
+  | ["utf8", h] => (parseHex h).map fun d => showCow (decodeUtf8 d)
+  | ["trim", h] => (parseHex h).map fun d => toHex (trimAsciiEnd d)
+  | ["czb", x] => (parseNat? x).map fun n => toString (containsZeroByte (BitVec.ofNat 64 n))
+  | ["rep", x] => (parseNat? x).map fun n => toString (repeatByte (UInt8.ofNat n)).toNat
   | _ => none
 
 end Jomini.Driver.C12
